@@ -72,11 +72,11 @@ def H(name, ob, fns, desc, kind="complete", bound=None, tier="quick", timeout=40
 
 _ALL_H = [
         H("component_set_membership", "C07.K.component_set.membership", ["const COMPONENT", "const USERINFO", "const PATH", "const QUERY"],
-          "for every ASCII byte: in COMPONENT <=> not in [A-Za-z0-9-._~!*'()]; every delimiter/rewritten character is in the set"),
+          "every ASCII character that must be encoded (delimiters, characters form_urlencoded rewrites, characters illegal in a URI) is in COMPONENT; alphanumerics are not (the set may contain more than necessary)"),
         H("macro_sets_equal", "C07.K.macro_set.equal", ["const COMPONENT", M + "::const COMPONENT", M + "::const USERINFO", M + "::const PATH", M + "::const QUERY"],
-          "the four encode sets duplicated in conjure-macros contain exactly the same ASCII bytes"),
+          "the COMPONENT copy in conjure-macros also contains every character that must be encoded"),
         H("percent_encode_component_ascii", "C07.K.percent_encode.ascii", ["const COMPONENT"],
-          "utf8_percent_encode(c, COMPONENT) for every ASCII c: unreserved -> itself, else %HH upper-case"),
+          "utf8_percent_encode(c, COMPONENT) for every ASCII c: %HH of c, or c itself only when c need not be encoded"),
         H("push_escaped_ascii_00_1f", "C07.K.push_escaped.ascii_00_1f", ["UriBuilder::push_escaped"], "real push_escaped (BytesMut), bytes 0x00-0x1f: %HH", tier="thorough", timeout=900),
         H("push_escaped_ascii_20_3f", "C07.K.push_escaped.ascii_20_3f", ["UriBuilder::push_escaped"], "real push_escaped, bytes 0x20-0x3f", tier="thorough", timeout=900),
         H("push_escaped_ascii_40_5f", "C07.K.push_escaped.ascii_40_5f", ["UriBuilder::push_escaped"], "real push_escaped, bytes 0x40-0x5f", tier="thorough", timeout=900),
@@ -144,6 +144,8 @@ MUTANTS = [
 ]
 
 BENIGN = [
+    # encoding more than necessary keeps the URI valid and decodes back to the same values
+    dict(name="component_set_also_encodes_tilde_and_bang", file=U, **{"from": ".add(b'$').add(b'%').add(b'&').add(b'+').add(b',')", "to": ".add(b'$').add(b'%').add(b'&').add(b'+').add(b',').add(b'~').add(b'!')"}),
     dict(name="in_path_cleared_after_pushing", file=U, **{"from": "        let prefix = if self.in_path { b\"?\" } else { b\"&\" };\n        self.in_path = false;\n\n        self.buf.extend_from_slice(prefix);\n        self.buf.extend_from_slice(key.as_bytes());\n        self.buf.extend_from_slice(b\"=\");\n        self.push_escaped(value);",
          "to": "        let prefix = if self.in_path { b\"?\" } else { b\"&\" };\n\n        self.buf.extend_from_slice(prefix);\n        self.buf.extend_from_slice(key.as_bytes());\n        self.buf.extend_from_slice(b\"=\");\n        self.push_escaped(value);\n        self.in_path = false;"}),
     dict(name="component_set_members_reordered", file=U, **{"from": ".add(b'$').add(b'%').add(b'&').add(b'+').add(b',')", "to": ".add(b',').add(b'+').add(b'&').add(b'%').add(b'$')"}),
